@@ -207,6 +207,40 @@ R2.update({
  "C18-10": ("/tmp/seeds7/J/3", "C18", "mtime BEFORE the epoch with a non-zero sub-second part (epoch - 1 ns, -0.25 s): mtime rebuilt from raw st_mtime/st_mtime_nsec subtracts the forward-counting nanoseconds, last_modified() wrong", []),
 })
 
+# eighth round: same brief; "interactions between features, configuration values nobody tries, the second
+# and third call of something, what happens right after an error, exact boundaries of internal buffers"
+R2.update({
+ "C01-7": ("/tmp/seeds8/A/1", "C01", "multi-range request with sum + 80n < L <= exact multipart size (a window a few bytes wide, needs non-trivial entity headers): falls back to the full entity AFTER the builder already carries 206 + multipart Content-Type + Content-Length: two Content-Length values, full body", ["C03", "C06", "C15"]),
+ "C07-6": ("/tmp/seeds8/A/2", "C07", "TWO opposite faults of equal size in different parts of one multipart response (one part k bytes short, another k bytes long): per-part length checks dropped for one global counter, the faults cancel, clean end", ["C06", "C02"]),
+ "C12-11": ("/tmp/seeds8/A/3", "C12", "multipart GET whose part arrives in two or more chunks, hint sampled mid-part: a part's whole length is charged against `remaining` when its stream is created, exact hint too low", ["C01"]),
+ "C03-12": ("/tmp/seeds8/B/1", "C03", "entity of 2^63..2^64 bytes and two or more ranges whose lengths plus 80 each total >= 2^64 (bytes=0-,1-): estimate summed without checked_add (panic with overflow checks; wraps, multipart, 413 without)", ["C13"]),
+ "C02-8": ("/tmp/seeds8/B/2", "C02", "a number of 20 decimal digits (>= 10^19) in Content-Range / Content-Length: two cooperating edits (fixed-size format buffer + MAX_DECIMAL_U64_BYTES 'derived' as ilog10 = 19): serve() panics", ["C13", "C01"]),
+ "C03-13": ("/tmp/seeds8/B/3", "C03", "SEQUENCE on one thread: a satisfiable Range (50-, -10) on an entity of length L1, then the identical header on a LONGER entity: thread_local memo keyed by the header bytes only, ranges resolved for L1 reused", ["C02"]),
+ "C04-10": ("/tmp/seeds8/C/1", "C04", "entity-tag containing a byte >= 0x80 in If-None-Match / If-Match: shared field_value() helper goes through to_str(): If-None-Match treated as absent, If-Match answered 400", ["C14"]),
+ "C13-9": ("/tmp/seeds8/C/2", "C13", "multipart part whose three numbers total >= 49 decimal digits (entity >= 10^16 bytes, ranges near the tail: bytes=-1,-3 on 2^63): part header formatted into an 80-byte stack array, write! unwrap panics", ["C06", "C01"]),
+ "C04-11": ("/tmp/seeds8/C/3", "C04", "entity modified AFTER the server's clock (future mtime) and an If-(Un)Modified-Since between now and that time: the Last-Modified clamp moved before the conditional evaluation, conditions compare the clamped time", ["C14"]),
+ "C05-8": ("/tmp/seeds8/D/1", "C05", "If-Range that differs from the strong ETag only by backslashes (\"a\\b\" vs \"ab\"): comparison 'supports quoted-pair', not byte-identical yet honoured", ["C04", "C14"]),
+ "C14-9": ("/tmp/seeds8/D/2", "C14", "modification time that truncates to the epoch, second request echoing `Thu, 01 Jan 1970 00:00:00 GMT` in If-Modified-Since: unparseable dates folded into an epoch sentinel, `since > epoch && ..`, 200 instead of 304", ["C04"]),
+ "C14-10": ("/tmp/seeds8/D/3", "C14", "entity ETag ending in an odd number of backslashes before the closing quote (\"C:\\data\\\"), echoed in If-None-Match / If-Match: list parser 'honours quoted-pair', tag never terminates, list corrupt", ["C04"]),
+ "C06-11": ("/tmp/seeds8/E/1", "C06", "entity range stream that yields an EMPTY chunk followed by more data: 'don't forward empty frames' returns Pending without waking, the body stalls inside the part", ["C01", "C02"]),
+ "C06-12": ("/tmp/seeds8/E/2", "C06", "multi-slice Buf as Entity::Data and a final chunk of a part of <= 256 bytes: 'coalesce small frames' copies d.chunk() (first slice only) together with the next part header, rest of the chunk dropped", ["C01", "C02"]),
+ "C15-10": ("/tmp/seeds8/E/3", "C15", ">= 2 ranges with sum + 80n < L but an exact multipart body not smaller than the entity (needs > ~45 bytes of entity headers): GET falls through to the 200, HEAD still answers by the estimate alone (206 multipart)", ["C03"]),
+ "C10-12": ("/tmp/seeds8/F/1", "C10", "producer write/flush/drop landing between the consumer's emptiness check and its waker registration (waker cloned outside the mutex, queue not re-checked): lost wake-up", ["C08"]),
+ "C12-12": ("/tmp/seeds8/F/3", "C12", "200 / single 206 from an honest entity whose stream contains an EMPTY chunk before the range is complete, consumer polls again after the first error: empty chunk treated as too-short (remaining zeroed), end flag up, then a bogus too-long error", ["C01", "C02", "C07"]),
+ "C10-13": ("/tmp/seeds8/H/1", "C10", "lock-free fast path for spurious polls: a re-poll with the SAME waker between the producer setting an AtomicBool `dirty` and taking the lock consumes the flag; the woken poll then sees dirty == false and returns Pending forever (needs a std atomic race)", []),
+ "C11-10": ("/tmp/seeds8/H/2", "C11", "body dropped while the writer thread is inside a critical section: Reader::drop uses try_lock, fails, state never marked, queue never released, writer never told", ["C10"]),
+ "C11-11": ("/tmp/seeds8/H/3", "C11", "write(&[]) -- the EMPTY slice -- after abort (or after the writer went dead): early `return Ok(0)` placed ahead of the Dead check", []),
+ "C09-9": ("/tmp/seeds8/G/1", "C09", "gzip, more than ~1 MiB of incompressible output written with NO poll in between, then flush: a non-dropping flush of a partly filled chunk is skipped when >= 1 MiB is queued unread, the tail is not decodable", ["C08"]),
+ "C09-10": ("/tmp/seeds8/G/2", "C09", ">= 129 chunks queued at the moment of a poll and a chunk size above 512: 'coalesce for a slow consumer' pops the next chunk before checking that it fits and does not put it back, one queued chunk silently lost", ["C08"]),
+ "C20-9": ("/tmp/seeds8/G/3", "C20", "multipart GET, any part fails (entity error, too short, too long), then one extra poll: fuse state `len << (1 | 1)` is the send-closing-boundary state: trailer frame after the error (release) / underflow panic (checked)", ["C12"]),
+ "C16-9": ("/tmp/seeds8/I/1", "C16", "a list containing x-gzip and no gzip element: x-gzip kept as an alias whose quality stands in for gzip's (true for 'x-gzip' alone, false for 'x-gzip;q=0, *')", ["C17"]),
+ "C19-10": ("/tmp/seeds8/I/2", "C19", "auto_gzip + gzip preferred + an ORPHAN .gz (path.gz exists, the plain path does not): plain path opened first with `?`, NotFound instead of the .gz node", []),
+ "C19-11": ("/tmp/seeds8/I/3", "C19", "path ending in `/` + auto_gzip + gzip preferred + `<path minus slash>.gz` exists: trailing slashes popped before .gz is appended (a/ opens a.gz instead of ENOTDIR; sub/ opens sub.gz instead of the directory)", []),
+ "C17-10": ("/tmp/seeds8/J/1", "C17", "Accept-Encoding value with an obs-text byte (>= 0x80) in an element next to one that allows gzip (gzip, \\xfc): streaming_body decides on from_utf8_lossy, should_gzip on to_str() (false)", ["C16"]),
+ "C18-11": ("/tmp/seeds8/J/2", "C18", "TWO live streams of one entity polled alternately, one range longer than 64 KiB: reads after the first use the shared file cursor (read(2) instead of pread), right length, wrong bytes", []),
+ "C18-12": ("/tmp/seeds8/J/3", "C18", "construction through new_with_metadata (not new) on a directory / device: the is_file refusal moved into new() only", ["C19"]),
+})
+
 def sh(cmd, **kw):
     return subprocess.run(cmd, shell=True, capture_output=True, text=True, **kw)
 
